@@ -68,6 +68,13 @@ CLAIMED.update({
    note="register index bounds and allocation offsets not decided; two defects (VCCHI mask, missing EXEC halves) found and repaired by fix: commits"),
 })
 
+CLAIMED.update({
+ "C13": dict(
+   text="Kernel loading decided against an external oracle: the published amd_kernel_code_t and kernel_descriptor_t layouts are transcribed as offset/width tables and every metadata read of both parsers and of the header sniffer is compared with its row (offset, width, slice width, flag bit, signature constants); parser bounds versus what callers establish; precedence of the V5 descriptor over header sniffing; 256 bytes stripped only under a positive sniff; kernel bytes are exactly the named symbol's range of .text; the descriptor is selected by name+.kd, size 64, inside .rodata.",
+   ref="4/C13", technique="constant-table comparison against a transcribed specification (TABLE), dominance cuts (GUARD), function-local value provenance",
+   note="debug/elf trusted; the register-count override arithmetic and the V5 policy overrides are not decided; the transcription of the two layouts is part of the trusted base (cross-checked against a shipped gfx942 descriptor); three offset defects of parseV5KernelDescriptor recorded as known findings"),
+})
+
 PENDING = {}
 
 NOT_APPLICABLE = {
